@@ -1,23 +1,92 @@
 """C06 configuration (see lib/props.py for the format)."""
 
+_WD = ["--watchdog", "120"]
+
 PROP = dict(
     harnesses={"c06_stream": dict(sources=["harness/c06_stream.cpp"])},
     legs=[
+        # one BufferedFd (two on pipes) against a raw non-blocking peer: unix socket pair, pipes, loopback TCP
         dict(name="bfd", harness="c06_stream", flavour="asan", mode="bfd", quick=20000, thorough=0,
-             args=["--watchdog", "120"], case_timeout=300),
-        dict(name="grid", harness="c06_stream", flavour="asan", mode="grid", quick=2880, thorough=2880, scalable=False, exhaustive=True,
-             args=["--watchdog", "120"], case_timeout=300),
+             args=_WD, case_timeout=300),
+        # 3 transports x 6 send-size classes x enabled-at-start or not x 4 thresholds x 5 consumption patterns x 4 close kinds
+        dict(name="grid", harness="c06_stream", flavour="asan", mode="grid", quick=2880, thorough=2880, scalable=False,
+             exhaustive=True, args=_WD, case_timeout=300),
+        # TcpServer<->raw clients, TcpClient<->raw listener, TcpAcceptor/TcpConnector + own TcpConnection, TcpServer<->TcpClient
         dict(name="tcp", harness="c06_stream", flavour="asan", mode="tcp", quick=10000, thorough=0,
-             args=["--watchdog", "120"], case_timeout=300),
-        dict(name="bfd-large", harness="c06_stream", flavour="asan", mode="bfd", quick=0, thorough=600000,
+             args=_WD, case_timeout=300),
+        dict(name="bfd-large", harness="c06_stream", flavour="asan", mode="bfd", quick=0, thorough=200000,
              args=["--watchdog", "300", "--thorough", "1"], case_timeout=600),
-        dict(name="tcp-large", harness="c06_stream", flavour="asan", mode="tcp", quick=0, thorough=300000,
+        dict(name="tcp-large", harness="c06_stream", flavour="asan", mode="tcp", quick=0, thorough=80000,
              args=["--watchdog", "300", "--thorough", "1"], case_timeout=600),
     ],
-    rule="tbd",
-    assumptions=[],
-    technique="tbd",
-    level_text="tbd",
-    level_note="tbd",
-    required_counters={"all": []},
+    rule=("One case = one seeded scenario on real kernel objects, the loop (epoll 3/4, select 1/4) driven pass by pass. Byte i of "
+          "stream s is f(s,i), so loss, duplication and reordering show at the offset where they happen. "
+          "bfd: a BufferedFd on a unix socket pair / a loopback TCP pair (SO_SNDBUF from the kernel minimum to the default), or two "
+          "BufferedFds on two pipes (4-64 KiB), against a raw non-blocking peer; 6-40 script steps: send (1 B-256 KiB, quick up to "
+          "1 MiB, thorough up to 8 MiB; sizes biased to 1,7,1023-1025,4095-4097), bursts of 2-6 sends, sends issued from inside the "
+          "send-complete and the receive callback, sends before enable() (half of the cases start disabled), disable()/enable() "
+          "cycles, peer reads of 1/7/100/1 Ki/4 Ki/64 Ki/all bytes (or none for many steps: full kernel buffer, partial writes, "
+          "EAGAIN), peer writes, receive threshold in {0,1,7,4096} with the callback consuming nothing / 1 byte / half / all but one / "
+          "everything / a mix, re-configuration of the receive callback, 0-4 loop passes between steps; one close event in ~45% of "
+          "the cases: peer shutdown(SHUT_WR), peer close() after draining, peer close() with unread data (reset), harness-side "
+          "disable()+destroy outside a callback / inside the receive / send-complete / read-zero callback. Then the peer reads "
+          "everything and the loop is pumped until every stream is complete or a stall is established. "
+          "grid: the same with transport, size class of the first sends, enabled-at-start, threshold, consumption pattern and close "
+          "kind enumerated over their full product (2880 cases), the rest seeded. "
+          "tcp: TcpServer with 1-3 (later up to 5) raw clients incl. stop()+start(); TcpClient against a raw listener with and without "
+          "auto-reconnect; TcpAcceptor / TcpConnector handing a TcpConnection to the harness; TcpServer<->TcpClient in one loop; "
+          "inet loopback (7/10) or unix path sockets; same step alphabet plus disconnect(token) / stop() / disconnect() from outside "
+          "and from inside the receive, send-complete and disconnected callbacks and shutdown(SHUT_WR) once everything is flushed. "
+          "Monitors: raw peer - every byte read equals f at the next offset and never exceeds what send() accepted; receive callback "
+          "- buffer content equals f[consumed, consumed+readable), never fewer bytes than presented before, at least the threshold, "
+          "nothing after a reported close; send-complete - bytes in the peer's hands + bytes in the kernel queues (FIONREAD/SIOCOUTQ) "
+          ">= bytes accepted by send() so far; close report - at most once, only after the peer closed, and for orderly closes only "
+          "after all preceding bytes are in the receive buffer and presented (or fewer than the threshold remain); end of case - "
+          "every stream whose two ends are still up is complete, else a stall is reported only if the kernel queues of the link are "
+          "observed empty while the loop made no progress for 4 passes. "
+          "A case is non-trivial when it produced a send backlog (send before enable, EAGAIN, partial write, append behind a queue), "
+          "re-presented unconsumed bytes together with later data, or contained a close; distinct = distinct hashes of "
+          "(configuration, script)"),
+    assumptions=[
+        "a peer close that resets the connection (close() with unread data, or data still queued towards a closed peer) is judged "
+        "leniently: streams must be correct prefixes and the close must be reported at most once; the strict 'after all preceding "
+        "data' form is applied to shutdown(SHUT_WR) and to close() with nothing outstanding in either direction",
+        "when the library is told the peer closed (read-zero / disconnected) it tears the connection down; bytes still queued for "
+        "sending at that point, or at a harness-side disconnect(), are not required to arrive (prefix only)",
+        "a receive threshold T means the callback is not invoked while fewer than T bytes are readable: a tail shorter than T at "
+        "close is not presented; on BufferedFd it must still be in getReceiveBuffer() (checked), on TcpConnection/TcpServer/TcpClient "
+        "the buffer is no longer reachable from the disconnected callback (not judged)",
+        "lowering the threshold with setReceiveCallback() does not re-present what is already buffered: the generator re-configures "
+        "only when nothing is buffered unpresented",
+        "send-complete firing although nothing new was sent, or after the harness disconnected (stale sibling event in the same "
+        "dispatch - the subject of C03) is counted, not judged; the property only says it must not fire early",
+        "on inet sockets SIOCOUTQ also counts bytes the peer already holds but has not acknowledged, so the 'written to the "
+        "descriptor' figure is an upper bound there (exact on unix sockets and pipes); a premature send-complete of less than the "
+        "unacknowledged amount could be missed on inet links",
+        "the kernel descriptor behind TcpServer/TcpClient connections is inferred (lowest free descriptor before accept()/socket(), "
+        "confirmed by socket type, family and, for inet, the address pair); where that fails the stall and send-complete checks of "
+        "that link are skipped and counted (fd_not_identified, send_complete_unchecked)",
+        "raw TCP sockets use TCP_MAXSEG 1200, TCP_NODELAY and at least 4608 bytes of buffer so that zero-window probing never "
+        "needs the persist timer; waiting for bytes that are observably inside the kernel is bounded (3 s) and then counted "
+        "inconclusive, never a violation",
+        "SIGPIPE is ignored, as any user of these classes must do (the library writes with write())",
+    ],
+    technique=("position-coded byte streams over real sockets/pipes, lock-step FIFO/offset model of both directions, kernel queue "
+               "inspection (FIONREAD/SIOCOUTQ) for stall and send-complete verdicts, under ASan+UBSan"),
+    level_text=("Tens of thousands of seeded scenarios (plus a 2880-case enumerated grid) drive the real BufferedFd/Tcp* classes over "
+                "real kernel objects with a slow, pausing or closing raw peer; every byte is checked at both ends against its stream "
+                "offset, send-complete against the kernel queues, close reports against what preceded them. Held on the histories "
+                "explored, not a proof."),
+    level_note=("trusts the offset model, the Linux FIONREAD/SIOCOUTQ figures and gcc ASan/UBSan; schedules are those the single loop "
+                "thread and the scripted peer produce, kernel timing is not controlled"),
+    required_counters={"all": ["sends_before_enable", "enable_with_queued_data", "reenable_with_queued_data",
+                               "direct_write_partial", "direct_write_eagain", "send_appended_behind_queue",
+                               "spill_buffer_used", "read_loop_second_readv",
+                               "unconsumed_represented_with_later_data", "receive_cb_left_unconsumed",
+                               "send_complete_checked", "sends_from_send_complete_cb", "sends_from_receive_cb",
+                               "close_order_checked", "close_left_in_buffer_checked", "close_tail_below_threshold",
+                               "peer_half_close", "peer_clean_close", "peer_reset_close",
+                               "teardown_outside_cb", "teardown_in_receive_cb", "teardown_in_send_complete_cb", "teardown_in_close_cb",
+                               "tcp_server_connected", "tcp_client_connected", "tcp_client_reconnected",
+                               "tcp_acceptor_connected", "tcp_connector_connected", "server_stop_start", "tbox_half_close"]},
 )
